@@ -246,7 +246,9 @@ def check_period(ck):
     for a, d in zip(reversed(fi.node.args.args), reversed(fi.node.args.defaults)):
         if isinstance(d, ast.Constant) and isinstance(d.value, (int, float)):
             base[a.arg] = Fraction(d.value)
-    samples = [("number", Fraction(v)) for v in (Fraction(1, 1000), 1, 250, 1000, 86400000 * 2)] + \
+    # numeric periods include values that are not a whole number of microseconds: the stored period must be the caller's
+    # number exactly (any round trip through timedelta / int / round loses them and the deadlines drift off the grid)
+    samples = [("number", Fraction(v)) for v in (Fraction(1, 1000), 1, 250, 1000, 86400000 * 2, Fraction(1, 3), Fraction(2001, 2000), Fraction(100001, 3000), Fraction(5, 10000))] + \
               [("timedelta", tdeval.TD(v)) for v in (Fraction(1, 10 ** 6), Fraction(1, 4), 1, 90, 3600, 86399, 86400, 93600, 129600, 7 * 86400, 86400 * 30 + Fraction(5, 2))]
     bad = []
     n = 0
@@ -268,7 +270,7 @@ def check_period(ck):
         n += 1
         if got != want:
             bad.append("%s %s -> stored %s ms, expected %s ms" % (kind, v, got, want))
-    ck.ob("C39.period", fi, fi.node, not bad, "the stored period equals the caller's period in milliseconds for numeric periods and for timedeltas from 1 microsecond to 30 days (%d samples%s)" % (n, ("; wrong: " + "; ".join(bad[:3])) if bad else ""),
+    ck.ob("C39.period", fi, fi.node, not bad, "the stored period equals the caller's period in milliseconds — numbers exactly (also fractions of a microsecond), timedeltas from 1 microsecond to 30 days (%d samples%s)" % (n, ("; wrong: " + "; ".join(bad[:3])) if bad else ""),
           construct="period conversion mismatches=%d" % len(bad))
     rej = []
     for v in (Fraction(0), Fraction(-5)):
@@ -354,6 +356,8 @@ def _unguard(root):
 
 
 MUTANTS = [
+    ("numeric period sent through timedelta and back (rounded to whole microseconds; seeded C39-adv5)", _in("__init__", lambda root: _roundtrip(root)), "C39.period"),
+    ("numeric period truncated to whole milliseconds (int())", _in("__init__", replace_stmt(lambda st: isinstance(st, ast.Assign) and ast.unparse(st.targets[0]) == "self.callback_time" and isinstance(st.value, ast.Name), lambda st: [parse_stmt("self.callback_time = int(callback_time)")])), "C39.period"),
     ("timedelta period converted via .seconds (days dropped)", _in("__init__", replace_expr(lambda n: isinstance(n, ast.BinOp) and isinstance(n.op, ast.Div) and "timedelta" in ast.unparse(n.right), lambda n: parse_expr("callback_time.seconds * 1000 + callback_time.microseconds / 1000"))), "C39.period"),
     ("timedelta period stored in seconds (total_seconds without * 1000)", _in("__init__", replace_expr(lambda n: isinstance(n, ast.BinOp) and isinstance(n.op, ast.Div) and "timedelta" in ast.unparse(n.right), lambda n: parse_expr("callback_time.total_seconds()"))), "C39.period"),
     ("zero period accepted (<= 0 -> < 0)", _in("__init__", replace_expr(lambda n: isinstance(n, ast.Compare) and isinstance(n.ops[0], ast.LtE), lambda n: ast.Compare(left=n.left, ops=[ast.Lt()], comparators=n.comparators))), "C39.period"),
@@ -399,5 +403,13 @@ def _sched_first(root):
     for i, st in enumerate(root.body):
         if isinstance(st, ast.Expr) and "_schedule_next" in ast.unparse(st):
             root.body.insert(1 if isinstance(root.body[0], ast.Expr) and isinstance(root.body[0].value, ast.Constant) else 0, root.body.pop(i))
+            return True
+    return False
+
+
+def _roundtrip(root):
+    for n in ast.walk(root):
+        if isinstance(n, ast.Assign) and ast.unparse(n.targets[0]) == "self.callback_time" and isinstance(n.value, ast.Name):
+            n.value = parse_expr("datetime.timedelta(milliseconds=callback_time) / datetime.timedelta(milliseconds=1)")
             return True
     return False
